@@ -839,7 +839,7 @@ func (w *pWorld) identifyBody(sel int64) ([]byte, bool) {
 }
 
 func (w *pWorld) statsCount(topic string) int64 {
-	resp := httpDo(w.rc, "GET", w.http, "/stats?format=json&topic="+url.QueryEscape(topic), nil, nil, nil, 30*time.Second)
+	resp := httpDo(w.rc, "GET", w.http, "/stats?format=json&include_mem=false&topic="+url.QueryEscape(topic), nil, nil, nil, 30*time.Second)
 	if resp.Err != nil || resp.Status != 200 {
 		w.violate(w.rc.Prop, "stats-unavailable", "%d %v", resp.Status, resp.Err)
 		return -1
@@ -1241,7 +1241,7 @@ func httpChunked(rc *RunCtx, method, addr, pathq string, body []byte) HTTPResp {
 
 // checkRegistryHTTP: admin endpoints have exactly their stated effect and nothing else.
 func (w *pWorld) checkRegistryHTTP() {
-	resp := httpDo(w.rc, "GET", w.http, "/stats?format=json", nil, nil, nil, 30*time.Second)
+	resp := httpDo(w.rc, "GET", w.http, "/stats?format=json&include_mem=false", nil, nil, nil, 30*time.Second)
 	if resp.Err != nil || resp.Status != 200 {
 		w.violate("C10", "stats-unavailable", "%d %v", resp.Status, resp.Err)
 		return
